@@ -808,7 +808,8 @@ pub trait StoreFor<T: Storable>: Configurable + private::StoreCallbacks<T> {
     #[inline]
     fn has(&self, item: impl Request<T>) -> bool {
         if let Some(handle) = item.to_handle(self) {
-            self.store().get(handle.as_usize()).is_some()
+            //the slot must exist and must not be a removed item
+            matches!(self.store().get(handle.as_usize()), Some(Some(_)))
         } else {
             false
         }
